@@ -31,11 +31,13 @@ func genFOBase(r *rand.Rand, sh foShape) *Scenario {
 	fo := &FOScenario{}
 	sc.FO = fo
 
-	switch r.IntN(5) {
-	case 0, 1:
+	switch r.IntN(11) {
+	case 0, 1, 2, 3:
 		fo.API, fo.Backend = "failover", "sharded"
-	case 2, 3:
+	case 4, 5, 6:
 		fo.API, fo.Backend = "failover", "syncmap"
+	case 7:
+		fo.API, fo.Backend = "failover", "shardedOfAny"
 	default:
 		fo.API, fo.Backend = "failoverOf", "shardedOf"
 	}
